@@ -388,7 +388,13 @@ def f18_noncanonical_ed25519_key(fn, args, record):
     if len(data) != 78 or data[:4] != args[1] or data[45] != 0:
         return False
     k = bytes(data[46:])
-    return ecref.ED25519.deser(k, canonical=False) is not None and ecref.ED25519.deser(k, canonical=True) is None
+    if ecref.ED25519.deser(k, canonical=True) is not None:
+        return False
+    if ecref.ED25519.deser(k, canonical=False) is not None:          # y >= p
+        return True
+    cleared = k[:31] + bytes([k[31] & 0x7f])                          # x = 0 with the sign bit set
+    pt = ecref.ED25519.deser(cleared, canonical=False)
+    return k[31] & 0x80 != 0 and pt is not None and pt[0] == 0
 
 
 def f18_noncanonical_ed25519_key_replay():
